@@ -81,6 +81,14 @@ def call_auth(sim, tag, pw, desc, clause):
                         "%s: authenticate(%r) raised %r (%s); %r" % (clause, pw, e, core.exc_line(e), desc))
 
 
+def fewer_blocks(r, k):
+    """a Read Without Encryption response rewritten to carry only the first k blocks"""
+    r = bytearray(r[:13 + 16 * k])
+    r[12] = k
+    r[0] = len(r)
+    return r
+
+
 def run_lite(sim, nfc, params):
     import nfc.tag
     lite_s = sim.chance("lite_s", 0.6)
@@ -179,6 +187,9 @@ def run_lite(sim, nfc, params):
                     plans.append(("flip", byte, bit))
             for i in range(20):
                 plans.append(("subst", sim.randint("sub.pos", first, last - 1), sim.randint("sub.len", 1, 8)))
+            # well-formed responses that carry fewer blocks than were asked for (block count and LEN consistent)
+            for kblocks in range(0, nblocks + 1):
+                plans.append(("blocks", first, kblocks))
         for plan in plans:
             kind, pos, arg = plan
 
@@ -187,6 +198,8 @@ def run_lite(sim, nfc, params):
                     r = bytearray(rsp)
                     if kind == "flip":
                         r[pos] ^= 1 << arg
+                    elif kind == "blocks":
+                        r = fewer_blocks(r, arg)
                     else:
                         rep = sim.bytes("sub.bytes", arg, tag=pos)
                         for j in range(arg):
@@ -197,7 +210,7 @@ def run_lite(sim, nfc, params):
             w.device.tamper = tamper
             sim.count("evaluations")
             sim.fault("tamper_" + kind)
-            region = "data" if pos < 13 + 16 * nblocks else "mac"
+            region = "count" if kind == "blocks" else "data" if pos < 13 + 16 * nblocks else "mac"
             try:
                 got = tag.read_with_mac(*blocks)
                 outcome = "none" if got is None else "data"
@@ -216,6 +229,26 @@ def run_lite(sim, nfc, params):
             sim.probe("tamper.detected")
         # NDEF read through the MAC path must not return altered octets either
         w.device.tamper = None
+        # authentication with a wrong key while the card's answers are replaced by well-formed short ones
+        wrong = bytearray(key)
+        wrong[sim.choose("wrong.byte", 16)] ^= 2 << sim.choose("wrong.bit", 7)
+        for kblocks in (0, 1):
+            tag4 = w.restart()
+
+            def tamper(idx, cmd, rsp, kblocks=kblocks):
+                if len(cmd) > 1 and cmd[1] == 0x06 and len(rsp) >= 13 + 32:
+                    return bytes(fewer_blocks(bytearray(rsp), kblocks))
+                return rsp
+            w.device.tamper = tamper
+            sim.fault("tamper_blocks_auth")
+            got = call_auth(sim, tag4, bytes(wrong), desc, "tamper-auth-blocks")
+            w.device.tamper = None
+            sim.cls(prod, "tamper-auth", kblocks, repr(got))
+            if got is True:
+                raise Violation("tamper-accepted", "%s authenticate blocks" % prod,
+                                "authenticate(wrong key) returned True when the answers to the MAC reads were replaced by "
+                                "well-formed responses with %d block(s); %r" % (kblocks, desc), {"clause": "tamper"})
+            sim.probe("tamper.detected")
 
 
 def run_ntag(sim, nfc, params):
